@@ -642,6 +642,28 @@ NP = ModV("np", {
     "nan": None, "double": FuncV(_float, "np.double"),
 })
 
+def _zip(ex, st, args, kw, node):
+    """zip of symbolic sequences as a value (live view: elements are read from the heap when they are asked for)"""
+    from . import objects
+    parts = []
+    for a in args:
+        if isinstance(a, ARef):
+            d = ex.arr(st, a)
+            if d.rank != 1:
+                raise Undecided("zip over a 2-D array")
+            parts.append((d.shape[0], (lambda ex_, st_, i, _a=a: ex_.sel1(st_.heap[_a.sid], i))))
+        elif isinstance(a, SeqV):
+            parts.append((a.length, a.getter))
+        elif isinstance(a, objects.SLRef):
+            parts.append((st.heap[a.sid].length, (lambda ex_, st_, i, _a=a: objects.symlist_get(ex_, st_, _a, i))))
+        else:
+            raise Undecided("zip() as a value over concrete sequences")
+    n = parts[0][0]
+    for p in parts[1:]:
+        n = zmin(n, p[0])
+    return SeqV(z3.simplify(n), lambda ex_, st_, i: Tup(p[1](ex_, st_, i) for p in parts), owner="fresh", name="zip")
+
+
 def _range(ex, st, args, kw, node):
     a = [as_int(x) for x in args]
     if len(a) == 1:
@@ -654,7 +676,7 @@ def _range(ex, st, args, kw, node):
 
 
 BUILTINS = {
-    "np": NP, "range": FuncV(_range, "range"),
+    "np": NP, "range": FuncV(_range, "range"), "zip": FuncV(_zip, "zip"),
     "len": FuncV(_len, "len"), "abs": FuncV(_abs, "abs"), "int": FuncV(_int, "int"), "float": FuncV(_float, "float"),
     "bool": FuncV(lambda ex, st, a, k, n: truth(a[0]), "bool"),
     "min": _minmax("min"), "max": _minmax("max"), "tuple": FuncV(_tuple, "tuple"), "list": FuncV(_list, "list"),
